@@ -843,6 +843,13 @@ impl Session {
             stream_id,
             data.len()
         );
+        // A frame carries at most 65535 payload bytes; larger chunks are sent as several frames
+        const MAX_FRAME_PAYLOAD: usize = u16::MAX as usize;
+        let mut data = data;
+        while data.len() > MAX_FRAME_PAYLOAD {
+            let head = data.split_to(MAX_FRAME_PAYLOAD);
+            self.write_frame(Frame::data(stream_id, head)).await?;
+        }
         let frame = Frame::data(stream_id, data);
         self.write_frame(frame).await
     }
